@@ -67,6 +67,12 @@ template <class T, size_t N, size_t M> struct H {
   T special(size_t which) {
     size_t cm = g.below(M);
     T p = modulus(cm);
+    // general boundary classes of any reduction: k*p + eps for small k (how many subtractions are needed) and
+    // 2^b + eps for every bit position b (where a fast path keyed on the operand's size would switch)
+    if (which % 10 == 9 && g.below(2)) {
+      if (g.below(2)) { T k = (T)(1 + g.below(3)); int e = (int)g.below(5) - 2; return (T)(k * p + (T)e); }
+      int b = (int)g.below(W); int e = (int)g.below(3) - 1; return (T)(((T)1 << b) + (T)e);
+    }
     switch (which % 10) {
       case 0: return 0;
       case 1: return 1;
@@ -209,6 +215,14 @@ template <class T, size_t N, size_t M> struct H {
     mpz_class p = of_u64(modulus(cm));
     mpz_class W2 = mpz_class(1) << W;
     mpz_class r;
+    // general boundary classes: k*p + eps for small k, and 2^b + eps for every bit length b up to two machine words
+    // (values just above/below the limb, the modulus size, unsigned long, …), both signs
+    if (which % 16 >= 12 && g.below(3) == 0) {
+      if (g.below(2)) { r = p * (long)(1 + g.below(4)) + ((long)g.below(5) - 2); }
+      else { r = (mpz_class(1) << (unsigned long)g.below(131)) + ((long)g.below(3) - 1); }
+      if (g.below(3) == 0) r = -r;
+      return r;
+    }
     switch (which % 16) {
       case 0: r = 0; break;
       case 1: r = 1; break;
